@@ -61,6 +61,16 @@ func c06base(site string) (Spec, int) {
 	case "reduce":
 		// few keys, many rows: the combiner runs in the producers' tables and in the consumers' merge
 		return Spec{Nodes: []PNode{src, {Op: "map", In: []int{0}, Out: []string{"int", "int64"}, Src: []int{-1, -1}, Salt: 5, Mod: 12}, {Op: "reduce", In: []int{1}, Fold: "sum"}}}, 2
+	case "reducebuf":
+		// one producer shard whose keys cycle 0,1,2,3,4: the task's own table (8 slots, flushed
+		// when more than half full) never sees a key twice between two flushes, so every call of
+		// the combiner in the producer happens in the per-partition combine buffer that the flush
+		// combines into
+		var vals []uint64
+		for i := 0; i < 60; i++ {
+			vals = append(vals, uint64(i%5))
+		}
+		return Spec{Nodes: []PNode{{Op: "keys", Shards: 1, Out: []string{"int", "int64"}, Vals: vals}, {Op: "reduce", In: []int{0}, Fold: "sum"}}}, 1
 	case "repartition":
 		return Spec{Nodes: []PNode{src, {Op: "repartition", In: []int{0}, Salt: 5}}}, 1
 	case "scan":
@@ -115,6 +125,13 @@ func runC06case(t *vf.T, pool *sessionPool, c c06case) {
 		at = 128
 	case "last":
 		at = total - 1
+	default:
+		// "call-k": the k-th invocation, for sites whose invocations happen in different places
+		// (a reduce combiner runs in the task's own table, in the shared per-partition buffer, in
+		// the final flush and in the consumer's merge): small k enumerate them
+		if strings.HasPrefix(c.Pos, "call-") {
+			fmt.Sscanf(c.Pos, "call-%d", &at)
+		}
 	}
 	if at >= total {
 		at = total / 2
@@ -236,6 +253,31 @@ func runC06(r *vf.Runner) {
 			return []string{"panic"}
 		}
 	}
+	// the reduce combiner at its first 40 invocations (quick: a Fibonacci-spaced sample), on the
+	// distributed executor with and without machine combiners: the call sites of the combiner
+	// inside a producer task differ in how they hold the shared combine buffer
+	defer func() {
+		ks := []int{0, 1, 2, 3, 5, 8, 13, 21, 34}
+		if !r.Quick() {
+			ks = nil
+			for k := 0; k < 40; k++ {
+				ks = append(ks, k)
+			}
+		}
+		for _, k := range ks {
+			for _, conf := range []sessConf{{Kind: "bigmachine", P: 4, MachProcs: 2, MaxLoad: 0.95}, {Kind: "bigmachine", P: 4, MachProcs: 2, MaxLoad: 0.95, Combiners: true}, localP4} {
+				if r.Quick() && conf.Kind == "local" && k%2 == 1 {
+					continue
+				}
+				c := c06case{Conf: conf, Site: "reduce", Mode: "panic", Persist: true, Pos: fmt.Sprintf("call-%d", k)}
+				r.Case(c, func(t *vf.T) { runC06case(t, pool, c) })
+				if k < 12 {
+					c := c06case{Conf: conf, Site: "reducebuf", Mode: "panic", Persist: k%2 == 0, Pos: fmt.Sprintf("call-%d", k)}
+					r.Case(c, func(t *vf.T) { runC06case(t, pool, c) })
+				}
+			}
+		}
+	}()
 	confs := []sessConf{localP1, localP4, {Kind: "bigmachine", P: 4, MachProcs: 2, MaxLoad: 0.95}, {Kind: "bigmachine", P: 4, MachProcs: 2, MaxLoad: 0.95, Combiners: true}}
 	positions := []string{"first", "vector-1", "vector", "vector+1", "last"}
 	i := 0
